@@ -309,9 +309,53 @@ fn forge_vcom_eq(row: &J, idx: u64) -> Res {
     Ok(())
 }
 
+/// The same forgery against a replicated protocol: a transcript for the first two of three discrete-log statements, hashed as the full statement; the third
+/// public value has no known discrete logarithm.
+fn forge_replicate(row: &J, idx: u64) -> Res {
+    let legacy = idx % 2 == 0;
+    let mut rng = StdRng::seed_from_u64(idx);
+    let w: Vec<Fr> = (0..2).map(|i| scalar("rand", 9000 * idx + i)).collect();
+    let mk = || -> Vec<Dlog<G>> { w.iter().enumerate().map(|(i, x)| Dlog { public: pt(1 + i as u64).mul_by_scalar(x), coeff: pt(1 + i as u64) }).collect() };
+    let red = ReplicateAdapter { protocols: mk() };
+    let mut protocols = mk();
+    protocols.push(Dlog { public: pt(77), coeff: pt(3) });
+    let full = ReplicateAdapter { protocols };
+    let secret: Vec<DlogSecret<G>> = w.iter().map(|x| DlogSecret { secret: Value::new(*x) }).collect();
+    type R = ReplicateAdapter<Dlog<G>>;
+    fn forge<T: TranscriptProtocol>(ro: &mut T, full: &R, red: &R, secret: <R as SigmaProtocol>::SecretData, rng: &mut StdRng) -> Option<Vec<u8>> {
+        let (cm, st) = red.compute_commit_message(rng)?;
+        full.public(ro);
+        ro.append_message("point", &cm);
+        let challenge_bytes = ro.extract_raw_challenge();
+        let ch = full.get_challenge(&challenge_bytes);
+        let resp = red.compute_response(secret, st, &ch)?;
+        let mut b = to_bytes(&challenge_bytes);
+        b.extend_from_slice(&to_bytes(&resp));
+        Some(b)
+    }
+    let bytes = if legacy { forge(&mut RandomOracle::domain("ctx-a"), &full, &red, secret, &mut rng) } else { forge(&mut TranscriptProtocolV1::with_domain("ctx-a"), &full, &red, secret, &mut rng) };
+    let bytes = match bytes {
+        Some(b) => b,
+        None => return fail("replicate_dlog: harness cannot run the prover steps".into(), J::Null, J::Null),
+    };
+    let proof = match reparse::<SigmaProof<<R as SigmaProtocol>::Response>>(&bytes) {
+        Some(p) => p,
+        None => return Ok(()),
+    };
+    let accepted = if legacy { verify(&mut RandomOracle::domain("ctx-a"), &full, &proof) } else { verify(&mut TranscriptProtocolV1::with_domain("ctx-a"), &full, &proof) };
+    if accepted {
+        return fail(format!("replicate_dlog: a proof answering only the first two of three statements verifies for all three ({} transcript), row {}", if legacy { "legacy" } else { "V1" }, row), json!(false), json!(true));
+    }
+    Ok(())
+}
+
 fn run_sigma(row: &J, idx: u64) -> Res {
     if row["perturb"] == "forge_skip_row" {
-        return if row["protocol"] == "vcom_eq" { forge_vcom_eq(row, idx) } else { Ok(()) };
+        return match row["protocol"].as_str().unwrap() {
+            "vcom_eq" => forge_vcom_eq(row, idx),
+            "replicate_dlog" => forge_replicate(row, idx),
+            _ => Ok(()),
+        };
     }
     let key = CommitmentKey::<G>::new(pt(1), pt(2));
     match row["protocol"].as_str().unwrap() {
